@@ -202,7 +202,11 @@ impl Prop for SeqExact {
         }
         let t = build_tree(c.kind, c.ty, c.how, &s, Some(c.tie_seed));
         label_seq(&m, c.kind, c.ty, ctx);
-        ctx.label(&format!("how={:?}", c.how));
+        ctx.label(&format!("how={}", crate::util::variant_name(&c.how)));
+        if let crate::seqgen::Content::Recipe(r) = &c.content {
+            ctx.label(&format!("arr={}", crate::util::variant_name(&r.arr)));
+            ctx.label(&format!("profile={}", crate::util::variant_name(&r.profile)));
+        }
         let n = m.n();
         let d = m.distinct();
         if c.kind.is_huffman() {
